@@ -1055,6 +1055,36 @@ func modeC08(e *Env) {
 		id++
 		repeatedValues(e, id, cfgs[e.R.Intn(len(cfgs))], cols, "repeated-values")
 	}
+	// events around the driver's receive buffer (4096 bytes, grown on demand and re-used): one transaction with a value of a
+	// given size, then small transactions whose packets arrive later through the same buffer - whatever the seed
+	for i, size := range []int{3000, 4000, 4060, 4096, 4200, 5000, 9000, 20000, 70000} {
+		if !e.Thorough() && (i+int(e.Seed))%2 == 1 && size != 5000 {
+			continue
+		}
+		cfg := cfgs[e.R.Intn(len(cfgs))]
+		l := &Log{Cfg: cfg}
+		col := colBlob(3)
+		col.Name, col.Nullable = "body", true
+		idc := colInt("long", false)
+		idc.Name, idc.Nullable = "id", true
+		t := &Table{ID: 310, DB: "dz", Name: "tbig", Cols: []Col{idc, col}}
+		f := &LogFile{Name: "mysql-bin.000001"}
+		l.Files = []*LogFile{f}
+		none := []Cell{{St: "absent"}, {St: "absent"}}
+		for u, sz := range []int{size, 30, 10, 50, 20} {
+			payload := randBytes(e.R, sz)
+			body := append([]byte{byte(sz), byte(sz >> 8), byte(sz >> 16)}, payload...)
+			ev := &Ev{K: "write", TS: 1600000000, Tbl: t, Rows: []RowPair{{B: none, A: []Cell{{St: "val", Bytes: []byte{byte(u), 0, 0, 0}}, {St: "val", Bytes: body}}}}}
+			f.Units = append(f.Units, &Unit{U: "autorow", Evs: []*Ev{{K: "tablemap", TS: 1600000000, Tbl: t}, ev}})
+		}
+		l.Layout()
+		a := defaultAttempt()
+		a.Scribble = i%3 == 1
+		a.Pacing = "lockstep" // later packets arrive in later reads
+		id++
+		RunStreamScenario(e.Rec, &StreamScenario{ID: id, Fam: "c08", Log: l, Start: l.Boundaries()[0], ServerID: 21,
+			Attempts: []AttemptPlan{a}, Note: "around-the-receive-buffer"})
+	}
 	// MariaDB-shaped transactions (no BEGIN: every rows event commits on its own and the XID that follows closes nothing): the
 	// empty transactions such commit events deliver are kept and read again like all others
 	for i := 0; i < e.N(2, 10); i++ {
